@@ -282,13 +282,6 @@ def make_tables(pats, fmts, strings, ints, ts):
             pre.append([p, s, bool(plain.match(s))])
     ext['pat'] = full
     cext['prefix'] = pre
-    rows = []
-    for s in strings:
-        try:
-            rows.append([s, fbits(float(s))])
-        except ValueError:
-            rows.append([s, None])
-    cext['fltOfStr'] = rows
     dec_rows, hexes = [], set()
     for s in strings:
         try:
@@ -513,8 +506,10 @@ def judge_default(built, struct_ir, field):
         except Exception as e:  # noqa: BLE001
             why = ('setattr', type(e).__name__, str(e)[:160])
     if why is not None:
+        # signature: diagnostic class of the refusal, the (unwrapped) field type, who refused and how
         problems.append(('default accepted by the compiler is refused by the generated class',
-                         {'kind': 'default-refused', 'why': classify_default_refusal(field)},
+                         {'kind': 'default-refused', 'why': classify_default_refusal(field), 'type': tname,
+                          'stage': why[0], 'exc': why[1]},
                          {'default': repr(d)[:200], 'refusal': list(why), 'ir_type': tname}))
     return problems
 
@@ -535,6 +530,15 @@ def _real_default_outcome(out):
         return list(out[:1]) + ([out[1]] if out[0] == 'crash' else [])
     f = field_of_first_struct(out[1])
     return ['ok', lit_tagged(f.default)]
+
+
+def check_ty_known(ck, case, rep):
+    """hypothesis of checkDefault_no_crash / example_check_no_crash: every class name of the types sent to the
+    model is one the compiler knows (must hold of every type read from a real IR)"""
+    if rep.get('tyKnown') is True:
+        ck.agree('decl.ircheck.tyknown')
+    else:
+        ck.disagree('decl.ircheck.tyknown', case, 'type built by the compiler', rep.get('tyKnown'))
 
 
 def _model_check_outcome(rep):
@@ -602,7 +606,7 @@ def codegen_failure_sig(case_kind, err):
         why = 'string-literal-wrapped-by-pprint'
     elif name == 'NameError':
         why = 'unbound-name'
-    return {'kind': case_kind, 'why': why}
+    return {'kind': case_kind, 'why': why, 'exc': name}
 
 
 def _type_family(t):
@@ -721,6 +725,7 @@ def suite_default_grid(ck):
             ck.disagree('decl.ircheck.default', {'type': t, 'literal': l, 'spec': default_case_text(t, l)}, real, mo)
         if rep.get('unionsAgree') is False:
             ck.disagree('decl.ircheck.unionsAgree', {'type': t}, 'classes of the compiled unions', rep)
+        check_ty_known(ck, {'type': t}, rep)
         model_by_case[(t, l)] = rep
     ck.stat('default.grid.cases', len(meta))
     ck.stat('default.grid.accepted', len(accepted))
@@ -865,6 +870,7 @@ def suite_spec_defaults(ck, builts):
                 ck.disagree('decl.ircheck.validate', case, list(real_v), list(mo))
             if rep.get('unionsAgree') is False:
                 ck.disagree('decl.ircheck.unionsAgree', case, 'classes of the compiled unions', rep)
+            check_ty_known(ck, case, rep)
 
 
 # ==================================================================================================
@@ -1030,14 +1036,31 @@ def first_difference(t, a, b):
         return None
     if isinstance(t, (Alias, Nullable)):
         return first_difference(t.data_type, a, b)
+    # The four "non-canonical spelling" classes are given only when the re-encoded leaf IS the canonical spelling of
+    # the example's value (computed here with the reference libraries); any other difference at such a leaf is a
+    # different failure and gets a different class.
     if isinstance(t, Timestamp):
-        return 'timestamp-noncanonical'
+        try:
+            canonical = datetime.datetime.strptime(a, t.format).strftime(t.format)
+        except (ValueError, TypeError):
+            return 'timestamp-changed'
+        return 'timestamp-noncanonical' if (canonical != a and b == canonical) else 'timestamp-changed'
     if isinstance(t, Bytes):
-        return 'bytes-noncanonical'
+        try:
+            canonical = base64.b64encode(base64.b64decode(a)).decode('ascii')
+        except (binascii.Error, ValueError, TypeError):
+            return 'bytes-changed'
+        return 'bytes-noncanonical' if (canonical != a and b == canonical) else 'bytes-changed'
     if isinstance(a, bool) != isinstance(b, bool):
-        return 'boolean-for-number'
+        if isinstance(a, bool) and isinstance(b, (int, float)) and b == int(a) and \
+                (isinstance(b, float) == isinstance(t, (Float32, Float64))):
+            return 'boolean-for-number'
+        return 'boolean-number-confusion'
     if isinstance(t, (Float32, Float64)) and isinstance(a, int) and isinstance(b, float):
-        return 'integer-not-representable-as-float'
+        try:
+            return 'integer-not-representable-as-float' if b == float(a) else 'float-changed'
+        except OverflowError:
+            return 'float-changed'
     if isinstance(t, List) and isinstance(a, list) and isinstance(b, list) and len(a) == len(b):
         for x, y in zip(a, b):
             r = first_difference(t.data_type, x, y)
@@ -1087,19 +1110,59 @@ def is_implicit_catch_all_example(dt, label):
     return False
 
 
+def embeds_catch_all(t, doc):
+    """Type-directed walk: does the example document use the catch-all tag of an open union somewhere (at the top
+    or in a member)? Such a document is what a receiver may meet from a newer sender, never what a sender of
+    this version of the spec produces: the strict decoder refuses it by design."""
+    from stone.ir import Alias, List, Map, Nullable, Struct, Union
+    if isinstance(t, (Alias, Nullable)):
+        return doc is not None and embeds_catch_all(t.data_type, doc)
+    if isinstance(t, List):
+        return isinstance(doc, list) and any(embeds_catch_all(t.data_type, x) for x in doc)
+    if isinstance(t, Map):
+        return isinstance(doc, dict) and any(embeds_catch_all(t.value_data_type, x) for x in doc.values())
+    if isinstance(t, Struct) and isinstance(doc, dict):
+        st = t
+        if t.has_enumerated_subtypes():
+            for f in t.get_enumerated_subtypes():
+                if f.name == doc.get('.tag'):
+                    return embeds_catch_all(f.data_type, {k: v for k, v in doc.items() if k != '.tag'})
+            return False
+        return any(f.name in doc and embeds_catch_all(f.data_type, doc[f.name]) for f in st.all_fields)
+    if isinstance(t, Union) and isinstance(doc, dict):
+        tag = doc.get('.tag')
+        for c in chain(t):
+            if c.catch_all_field is not None and c.catch_all_field.name == tag:
+                return True
+        for f in t.all_fields:
+            if f.name == tag:
+                inner = unwrap_ir(f.data_type)
+                if isinstance(inner, Struct) and not inner.has_enumerated_subtypes() and tag not in doc:
+                    return embeds_catch_all(inner, {k: v for k, v in doc.items() if k != '.tag'})
+                return tag in doc and embeds_catch_all(f.data_type, doc[tag])
+    return False
+
+
+NOT_JUDGED = 'not-judged'
+
+
 def judge_example(built, dt, label, example_value, perms):
-    """The property on one computed example: (problems, decoded value | None, re-encoded | None)"""
+    """The property on one computed example: (problems, decoded value | None, re-encoded | None);
+    problems is NOT_JUDGED for a document that uses a catch-all tag (explicitly written: `f = other`)"""
     from stone.backends.python_rsrc import stone_serializers as ss
     validator = built.validator_for(dt)
     doc = plain_json(example_value)
     p = _Perms(perms) if perms else None
     kind = type(dt).__name__.lower()
+    if embeds_catch_all(dt, doc):
+        return (NOT_JUDGED, None, None)
     try:
         obj = ss.json_compat_obj_decode(validator, plain_json(doc), caller_permissions=p, strict=True)
     except Exception as e:  # noqa: BLE001
         why = first_bad_leaf(dt, doc) or 'unclassified'
         return ([('computed example does not decode strictly as its type',
-                  {'kind': 'example-decode', 'why': why}, {'error': '%s: %s' % (type(e).__name__, str(e)[:200]), 'of': kind})],
+                  {'kind': 'example-decode', 'why': why, 'exc': type(e).__name__},
+                  {'error': '%s: %s' % (type(e).__name__, str(e)[:200]), 'of': kind})],
                 None, None)
     try:
         back = plain_json(ss.json_compat_obj_encode(validator, obj, caller_permissions=p))
@@ -1111,6 +1174,16 @@ def judge_example(built, dt, label, example_value, perms):
         return ([('decoded example encodes to a different document', {'kind': 'example-roundtrip', 'why': why},
                   {'encoded': back, 'of': kind})], obj, back)
     return ([], obj, back)
+
+
+def report_example(ck, problems, case):
+    """hand the verdict of judge_example to the Check object; the problems that were reported"""
+    if problems is NOT_JUDGED:
+        ck.stat('example.embeds_catch_all_not_judged')
+        return []
+    for what, sig, detail in problems:
+        ck.failing_input('C10 example: ' + what, sig, dict(case, **detail))
+    return problems
 
 
 def declared_callers(api):
@@ -1170,8 +1243,7 @@ def suite_spec_examples(ck, builts):
                     case = {'suite': 'spec-example', 'profile': prof, 'type': ref_of(dt), 'label': label,
                             'example': plain_json(ex.value), 'perms': perms, 'specs': specs}
                     problems, _obj, _back = judge_example(built, dt, label, ex.value, perms)
-                    for what, sig, detail in problems:
-                        ck.failing_input('C10 example: ' + what, sig, dict(case, **detail))
+                    report_example(ck, problems, case)
                     # model: flat (reference-free) raw examples of plain structs and unions, caller without permissions
                     raw = dt._raw_examples.get(label)
                     if raw is None or perms:
@@ -1212,6 +1284,7 @@ def compare_example_model(ck, built, dt, real_doc, case, rep, real_check, has_re
     from harness.suites.rt import outcome
     mo = _model_check_outcome(rep)
     mo = mo[:1] if mo[0] in ('ok', 'invalid') else mo
+    check_ty_known(ck, case, rep)
     if mo == ['ok'] and rep.get('doc') is None and has_ref:
         # the member check passed and the value refers to another example: following references is outside the model
         ck.stat('example.model.reference_unmodelled')
@@ -1349,9 +1422,9 @@ def suite_example_grid(ck):
         dt = built.api.namespaces['ns'].data_type_by_name[sname]
         ex = dt.get_examples()['default']
         problems, _o, _b = judge_example(built, dt, 'default', ex.value, [])
-        for what, sig, detail in problems:
-            ck.failing_input('C10 example: ' + what, sig, dict(case, example=plain_json(ex.value), **detail))
-        ck.hist('example.grid.roundtrip', 'ok' if not problems else problems[0][1]['kind'] + ':' + problems[0][1]['why'])
+        ck.hist('example.grid.roundtrip', NOT_JUDGED if problems is NOT_JUDGED else
+                ('ok' if not problems else problems[0][1]['kind'] + ':' + problems[0][1]['why']))
+        report_example(ck, problems, dict(case, example=plain_json(ex.value)))
         # the model was asked about class ns.S; the batch calls it ns.S<i>: documents do not mention the class
         compare_example_model(ck, built, dt, ex.value, slim, rep, ['ok'], _has_ref(parsed[v]))
 
@@ -1478,8 +1551,7 @@ def suite_flat_examples(ck, n):
                 built = None
             if built is not None:
                 problems, _o, _b = judge_example(built, dt, 'default', doc, [])
-                for what, sig, detail in problems:
-                    ck.failing_input('C10 example: ' + what, sig, dict(case, example=plain_json(doc), **detail))
+                report_example(ck, problems, dict(case, example=plain_json(doc)))
                 from stone.ir import Struct
                 for c in chain(dt):
                     for f in c.fields:
@@ -1488,6 +1560,83 @@ def suite_flat_examples(ck, n):
                                 ck.failing_input('C10 default: ' + what, sig,
                                                  dict(case, suite='flat-default', struct=ref_of(c), field=f.name, **detail))
         compare_example_model(ck, built, dt, doc, {k: v for k, v in case.items()}, rep, real_check)
+
+
+# ==================================================================================================
+# corpus: hand seeds / minimised past failures, evaluated first on every run
+# ==================================================================================================
+def evaluate_specs(specs):
+    """The direct oracle on everything a spec declares: every defaulted field and every example label.
+    ('refused', msg) | ('crash', cls) | ('ok', [(what, signature, detail)], n_not_judged)"""
+    from stone.ir import Struct
+    out = compile_outcome(specs, fast=False)
+    if out[0] != 'ok':
+        return out
+    has_default = any(f.has_default for ns in out[1].namespaces.values() for dt in ns.data_types
+                      if isinstance(dt, Struct) for f in dt.fields)
+    try:
+        built = pygen.build_python(specs)
+    except Exception as e:  # noqa: BLE001
+        if not has_default:
+            return ('codegen-unrelated', type(e).__name__)
+        return ('ok', [('default accepted by the compiler, but python_types cannot produce / load the module that assigns it',
+                        codegen_failure_sig('default-codegen', e),
+                        {'error': type(e).__name__, 'detail': (getattr(e, 'traceback', '') or str(e))[-400:]})], 0)
+    found, skipped = [], 0
+    perms = declared_callers(built.api)
+    for ns in built.api.namespaces.values():
+        for dt in ns.data_types:
+            if isinstance(dt, Struct):
+                for f in dt.fields:
+                    if f.has_default:
+                        for what, sig, detail in judge_default(built, dt, f):
+                            found.append(('C10 default: ' + what, sig, dict(detail, struct=ref_of(dt), field=f.name)))
+            for label, ex in dt.get_examples().items():
+                if is_implicit_catch_all_example(dt, label):
+                    continue
+                problems, _o, _b = judge_example(built, dt, label, ex.value, perms)
+                if problems is NOT_JUDGED:
+                    skipped += 1
+                    continue
+                for what, sig, detail in problems:
+                    found.append(('C10 example: ' + what, sig,
+                                  dict(detail, type=ref_of(dt), label=label, example=plain_json(ex.value), perms=perms)))
+    return ('ok', found, skipped)
+
+
+def suite_corpus(ck):
+    """corpus/C10/*.json: {"note", "expect": <signature subset | "not-judged" | null>, "case": {"specs": [[path, text]..]}}.
+    Every seed is evaluated with the direct oracle before anything else, so a listed finding is re-confirmed
+    (or seen to be gone) on every run, whatever the seed of the random part."""
+    import os
+    d = os.path.join(core.VERIF, 'corpus', ck.prop)
+    if not os.path.isdir(d):
+        return
+    for fn in sorted(os.listdir(d)):
+        if not fn.endswith('.json'):
+            continue
+        rec = json.load(open(os.path.join(d, fn), encoding='utf-8'))
+        specs = [tuple(x) for x in rec['case']['specs']]
+        ck.case(('corpus', fn), nontrivial=True)
+        ck.stat('corpus.cases')
+        res = evaluate_specs(specs)
+        expect = rec.get('expect')
+        if res[0] != 'ok':
+            ck.stat('corpus.not_evaluated')
+            ck.hist('corpus.not_evaluated', '%s: %s' % (fn, res[0]))
+            continue
+        _ok, found, skipped = res
+        if skipped:
+            ck.stat('example.embeds_catch_all_not_judged', skipped)
+        for what, sig, detail in found:
+            ck.failing_input(what, sig, dict(detail, suite='corpus', seed_file='corpus/%s/%s' % (ck.prop, fn), specs=specs))
+        if expect == NOT_JUDGED:
+            ck.hist('corpus.seed', 'not-judged-as-expected' if skipped and not found else 'not-judged-seed-changed: ' + fn)
+        elif isinstance(expect, dict):
+            hit = any(all(sig.get(k) == v for k, v in expect.items()) for _w, sig, _d in found)
+            ck.hist('corpus.seed', 'fails-as-recorded' if hit else 'no-longer-fails-as-recorded: ' + fn)
+        else:
+            ck.hist('corpus.seed', 'holds' if not found else 'fails: ' + fn)
 
 
 # ==================================================================================================
@@ -1514,7 +1663,14 @@ def replay(ck, path):
         return 1
     found = 0
     suite = case.get('suite', '')
-    if 'default' in suite:
+    if suite == 'corpus':
+        res = evaluate_specs(specs)
+        for what, sig, detail in res[1]:
+            found += 1
+            print('FAILS:', what, sig, {k: v for k, v in detail.items() if k != 'specs'})
+        if res[2]:
+            print('NOT JUDGED: %d example(s) use a catch-all tag' % res[2])
+    elif 'default' in suite:
         from stone.ir import Struct
         for ns in built.api.namespaces.values():
             for dt in ns.data_types:
@@ -1536,6 +1692,9 @@ def replay(ck, path):
                         continue
                     problems, _o, back = judge_example(built, dt, label, ex.value, case.get('perms', []))
                     print('example', ref_of(dt), label, json.dumps(plain_json(ex.value)), '->', json.dumps(back))
+                    if problems is NOT_JUDGED:
+                        print('NOT JUDGED: the document uses a catch-all tag')
+                        continue
                     for what, sig, detail in problems:
                         found += 1
                         print('FAILS:', what, sig, detail)
